@@ -1,5 +1,6 @@
 import PvModel.Props.C24
 import PvModel.Props.C24Sem
+import PvModel.Props.C24Count
 #print axioms Pv.C24_cons
 #print axioms Pv.C24_empty
 #print axioms Pv.C24_cons_sound
@@ -22,3 +23,13 @@ import PvModel.Props.C24Sem
 #print axioms Pv.C24_member1_spec
 #print axioms Pv.C24_rember_spec
 #print axioms Pv.C24_distinct_spec
+#print axioms Pv.C24_complete
+#print axioms Pv.C24_invariant
+#print axioms Pv.C24_exact
+#print axioms Pv.C24_append_complete
+#print axioms Pv.C24_member_complete
+#print axioms Pv.C24_permute_complete
+#print axioms Pv.C24_member_one_per_position
+#print axioms Pv.C24_member1_one_per_value
+#print axioms Pv.C24_listLen_literal
+#print axioms Pv.C24_count_start
